@@ -485,4 +485,108 @@ example : trace State.init [.pOpFail .uploadSegment .once, .upSeg 1 [1], .list, 
 example : answers (trace State.init (lagging ++ [.rOpFail .listSegments .always, .list])) =
     answers (trace State.init [.upSeg 1 [1, 2, 3], .upSeg 2 [4, 5], .list]) := by decide
 
+/-! ### error classes of reads (what `errors.Is(err, storage.ErrNotFound)` sees) -/
+
+theorem ite_err_ok_cases (c : Prop) [Decidable c] (y : Bytes) :
+    (∃ x, (if c then GoResult.err else GoResult.ok y) = .ok x) ∨ (if c then GoResult.err else GoResult.ok y) = .err := by
+  by_cases h : c
+  · exact .inr (by simp [h])
+  · exact .inl ⟨y, by simp [h]⟩
+
+theorem rangeRead_cases (d : Bytes) (r : Option Rng) : (∃ x, rangeRead d r = .ok x) ∨ rangeRead d r = .err := by
+  cases r with
+  | none => exact .inl ⟨_, rfl⟩
+  | some r => exact ite_err_ok_cases _ _
+
+/-- the classified backend reads are the reads of the model above with the class forgotten -/
+theorem readSegC_toGo (b : Bucket) (k : Nat) (r : Option Rng) : (b.readSegC k r).toGo = b.readSeg k r := by
+  unfold Bucket.readSegC Bucket.readSeg
+  by_cases hf : b.failing k = true
+  · simp [hf, RRes.toGo]
+  · simp only [hf, Bool.false_eq_true, if_false]
+    cases hs : b.seg k with
+    | none => rfl
+    | some d =>
+      rcases rangeRead_cases d r with ⟨x, hx⟩ | hx <;> simp [hx, RRes.toGo]
+
+theorem readIdxC_toGo (b : Bucket) (k : Nat) : (b.readIdxC k).toGo = b.readIdx k := by
+  unfold Bucket.readIdxC Bucket.readIdx
+  by_cases hf : b.failing k = true
+  · simp [hf, RRes.toGo]
+  · simp only [hf, Bool.false_eq_true, if_false]
+    cases hs : b.idx k <;> rfl
+
+/-- **The classified dual reads refine the dual reads**: forgetting the class gives exactly `dualReadSeg`/`dualReadIdx`,
+so every theorem above is about the same function. -/
+theorem _root_.KafVerif.C44.classified_reads_refine (s : State) (k : Nat) (r : Option Rng) :
+    (dualReadSegC s k r).toGo = dualReadSeg s k r ∧ (dualReadIdxC s k).toGo = dualReadIdx s k := by
+  constructor
+  · unfold dualReadSegC dualReadSeg
+    rw [← readSegC_toGo s.rep, ← readSegC_toGo s.pri]
+    cases s.rep.readSegC k r <;> rfl
+  · unfold dualReadIdxC dualReadIdx
+    rw [← readIdxC_toGo s.rep, ← readIdxC_toGo s.pri]
+    cases s.rep.readIdxC k <;> rfl
+
+/-- **The error class of a dual read is the primary's** — every state (lagging, stale, failing replica; failing
+primary), every key and range: whenever the replica does not deliver, the dual client's answer INCLUDING the class of its
+error (`notFound` vs `failed`) is the primary's own answer to that read.  In particular replica not-found + primary
+transient failure is `failed`, never `notFound`. -/
+theorem _root_.KafVerif.C44.read_error_class_is_primarys (s : State) (k : Nat) (r : Option Rng) :
+    ((s.rep.readSegC k r).isOk = false → dualReadSegC s k r = s.pri.readSegC k r) ∧
+    ((s.rep.readIdxC k).isOk = false → dualReadIdxC s k = s.pri.readIdxC k) := by
+  constructor
+  · intro h; unfold dualReadSegC
+    cases hr : s.rep.readSegC k r with
+    | ok d => simp [hr, RRes.isOk] at h
+    | notFound => rfl
+    | failed => rfl
+  · intro h; unfold dualReadIdxC
+    cases hr : s.rep.readIdxC k with
+    | ok d => simp [hr, RRes.isOk] at h
+    | notFound => rfl
+    | failed => rfl
+
+/-- **A failed dual read is classified like the primary's failure** (no hypothesis at all): a dual read that errs has
+the primary's error, class included. -/
+theorem _root_.KafVerif.C44.failed_dual_read_has_primarys_class (s : State) (k : Nat) (r : Option Rng) :
+    ((dualReadSegC s k r).isOk = false → dualReadSegC s k r = s.pri.readSegC k r) ∧
+    ((dualReadIdxC s k).isOk = false → dualReadIdxC s k = s.pri.readIdxC k) := by
+  constructor
+  · unfold dualReadSegC
+    cases hr : s.rep.readSegC k r with
+    | ok d => simp [RRes.isOk]
+    | notFound => simp
+    | failed => simp
+  · unfold dualReadIdxC
+    cases hr : s.rep.readIdxC k with
+    | ok d => simp [RRes.isOk]
+    | notFound => simp
+    | failed => simp
+
+/-- **Restore decides like on the primary**: `RestoreFromS3` skips a segment as orphaned only when the PRIMARY says its
+index does not exist, and aborts (to be retried) exactly when the primary's index read fails — whatever the replica
+holds or answers, as long as it does not deliver an index itself. -/
+theorem _root_.KafVerif.C44.restore_decision_is_primarys (s : State) (k : Nat) (h : (s.rep.readIdxC k).isOk = false) :
+    restoreDecision (dualReadIdxC s k) = restoreDecision (s.pri.readIdxC k) := by
+  rw [(KafVerif.C44.read_error_class_is_primarys s k none).2 h]
+
+/-- the state of the seeded situation: the primary holds index 1 but its read fails transiently; the replica lags (no copy) -/
+def laggingIdxPrimaryFailing : State := run [.upIdx 1 [10, 11], .pFail 1 true]
+
+/-- **Witness: joining both errors breaks the class.**  With the replica not-found and the primary failing transiently
+the joined error IS not-found (`errors.Is` finds the replica's wrapped error), the primary's own answer is `failed`:
+the restore would skip a segment the primary still holds instead of aborting. -/
+theorem _root_.KafVerif.C44.joined_error_violates :
+    dualReadIdxJoined laggingIdxPrimaryFailing 1 = .notFound ∧ laggingIdxPrimaryFailing.pri.readIdxC 1 = .failed ∧
+    dualReadIdxC laggingIdxPrimaryFailing 1 = .failed ∧
+    restoreDecision (dualReadIdxJoined laggingIdxPrimaryFailing 1) = some false ∧
+    restoreDecision (dualReadIdxC laggingIdxPrimaryFailing 1) = none := by decide
+
+-- non-vacuity: hypotheses of read_error_class_is_primarys are satisfiable with each class on the primary's side
+example : (laggingIdxPrimaryFailing.rep.readIdxC 1).isOk = false ∧ laggingIdxPrimaryFailing.rep.readIdxC 1 = .notFound := by decide
+example : dualReadIdxC (run [.upIdx 1 [10, 11]]) 1 = .ok [10, 11] ∧ dualReadIdxC (run [.upIdx 1 [10, 11]]) 2 = .notFound := by decide
+example : dualReadSegC (run [.upSeg 1 [1, 2], .rFail 2 true]) 2 none = .notFound ∧
+    dualReadSegC (run [.upSeg 1 [1, 2]]) 1 (some ⟨5, 9⟩) = .failed := by decide
+
 end KafVerif.DualS3
